@@ -76,9 +76,9 @@ impl AuthKey {
     pub fn as_key_type(&mut self, alg: u8, key: &[u8], engine_id: &[u8]) -> SnmpResult<()> {
         if self.has_auth() {
             match alg & KT_TYPE_MASK {
-                KT_PASSWORD => self.as_password(key, engine_id),
-                KT_MASTER => self.as_master(key, engine_id),
-                KT_LOCALIZED => self.as_localized(key),
+                KT_PASSWORD if !key.is_empty() => self.as_password(key, engine_id),
+                KT_MASTER if key.len() == self.get_key_size() => self.as_master(key, engine_id),
+                KT_LOCALIZED if key.len() == self.get_key_size() => self.as_localized(key),
                 _ => return Err(SnmpError::InvalidKey),
             }
         }
